@@ -77,6 +77,48 @@ def ask(loop, sess, sql):
         return ("Err", type(e).__name__)
 
 
+def empty_entries_probe():
+    """declarations that hold a database without tables or a table without columns, in first and in last position, at each
+    depth.  -> (witness: what the declaration DOES hold is listed wrongly | None,
+                witness: a declared empty database / table is not listed | None, statements asked)"""
+    import asyncio
+    orders = {"id": "INT", "total": "DOUBLE"}
+    decls = [
+        ("an empty database first, depth 3", {"empty_db": {}, "shop": {"orders": dict(orders)}}, ["empty_db", "shop"], {"shop": ["orders"]}),
+        ("an empty database last, depth 3", {"shop": {"orders": dict(orders)}, "empty_db": {}}, ["empty_db", "shop"], {"shop": ["orders"]}),
+        ("a table without columns first, depth 3", {"shop": {"no_columns_yet": {}, "orders": dict(orders)}}, ["shop"], {"shop": ["no_columns_yet", "orders"]}),
+        ("a table without columns last, depth 3", {"shop": {"orders": dict(orders), "no_columns_yet": {}}}, ["shop"], {"shop": ["no_columns_yet", "orders"]}),
+        ("an empty catalog first, depth 4", {"cat0": {}, "def": {"shop": {"orders": dict(orders)}}}, ["shop"], {"shop": ["orders"]}),
+        ("an empty database first, depth 4", {"def": {"empty_db": {}, "shop": {"orders": dict(orders)}}}, ["empty_db", "shop"], {"shop": ["orders"]}),
+    ]
+    builtin = {"information_schema", "mysql"}
+    loop = asyncio.new_event_loop()
+    wrong, unlisted, n = None, None, 0
+    try:
+        for what, m, dbs, tabs in decls:
+            CatSession.MAPPING = m
+            sess = CatSession()
+            sess.database = "shop"
+            got = ask(loop, sess, "SHOW DATABASES"); n += 1
+            listed = sorted(r[0] for r in got[1] if r[0] not in builtin) if got[0] == "Ok" else got
+            cols = ask(loop, sess, "SHOW COLUMNS FROM orders FROM shop"); n += 1
+            tl = ask(loop, sess, "SHOW TABLES FROM shop"); n += 1
+            tlisted = sorted(r[0] for r in tl[1]) if tl[0] == "Ok" else tl
+            colnames = [r[0] for r in cols[1]] if cols[0] == "Ok" else cols
+            # what the declaration holds must be there, and nothing that was not declared
+            if (not isinstance(listed, list) or "shop" not in listed or any(x not in dbs for x in listed) or not isinstance(tlisted, list)
+                    or "orders" not in tlisted or any(x not in tabs["shop"] for x in tlisted) or colnames != ["id", "total"]):
+                wrong = wrong or dict(problem=f"{what}: the declared database, table and columns are not what the catalog lists", mapping=repr(m),
+                                      show_databases=repr(listed), show_tables_from_shop=repr(tlisted), show_columns_from_orders=repr(colnames))
+            elif listed != dbs or tlisted != tabs["shop"]:
+                unlisted = unlisted or dict(problem=f"{what}: a declared database without tables / table without columns is not listed", mapping=repr(m),
+                                            show_databases=repr(listed), declared_databases=repr(dbs), show_tables_from_shop=repr(tlisted),
+                                            declared_tables=repr(tabs["shop"]))
+    finally:
+        loop.close()
+    return wrong, unlisted, n
+
+
 def living_schema():
     import asyncio
     M = {"shop": {"items": {"id": "INT", "name": "TEXT"}, "orders": {"id": "INT"}}, "lab": {"runs": {"n": "INT"}}}
@@ -338,6 +380,16 @@ def run(ctx: core.Ctx):
     ctx.evals += mw[1]
     if mw[0] and witness is None:
         witness = dict(kind="catalog-after-in-place-change", **mw[0])
+
+    # ---- declarations with empty entries: what they hold is listed as declared (the depth of a mapping is not decided by its
+    #      first entry); the empty entries themselves are the open finding
+    ew, eu, ne = empty_entries_probe()
+    ctx.evals += ne
+    if ew and witness is None:
+        witness = dict(kind="declaration-with-empty-entries", **ew)
+    if eu:
+        core.report_violation(ctx, "a declared database without tables / table without columns is not listed",
+                              dict(kind="declared-empty-entry-not-listed", **eu), key="declared-empty-entry-not-listed")
 
     # the packet itself byte for byte against Model/Packets.v and through its reference decoder
     import packets_corr
